@@ -31,12 +31,10 @@ func init() {
 		c.Rule = "depth-first enumeration of all schedules (thread choice at every lock/channel/atomic/IO point) of the real handleGet/sendNotification code within the preemption bound; an execution is distinct by its observation vector (send results, frames per stream, table content)"
 		c.Assume = append(c.Assume, "net/http replaced by memnet (headers reach the client at Flush)", "handshake prelude runs under the default schedule")
 		pb := c.Pick(3, 6)
-		c.DFS("c11/reopen-send", explore.Bounds{Preempt: pb, Dev: 2, POR: true})
-		c.DFS("c11/reopen-roots", explore.Bounds{Preempt: pb, Dev: 2, POR: true})
-		c.DFS("c11/reopen-close1", explore.Bounds{Preempt: pb, Dev: 2, POR: true})
-		c.DFS("c11/triple", explore.Bounds{Preempt: c.Pick(3, 5), Dev: 1, POR: true})
-		// plain (no reduction) cross-check
-		c.DFS("c11/reopen-send", explore.Bounds{Preempt: 2, Dev: 1})
+		c.DFSBoth("c11/reopen-send", explore.Bounds{Preempt: pb, Dev: 2}, 2)
+		c.DFSBoth("c11/reopen-roots", explore.Bounds{Preempt: pb, Dev: 2}, 1)
+		c.DFSBoth("c11/reopen-close1", explore.Bounds{Preempt: pb, Dev: 2}, 1)
+		c.DFSBoth("c11/triple", explore.Bounds{Preempt: c.Pick(3, 5), Dev: 1}, 1)
 	})
 }
 
